@@ -211,7 +211,28 @@ theorem splitOnce1_render (sep : UInt8) (l r : Bytes) (h : sep ∉ l) :
 theorem splitOnce1_of_not_mem (sep : UInt8) (x : Bytes) (h : sep ∉ x) : splitOnce1 sep x = none :=
   (splitOnce1_none_iff sep x).2 h
 
+/-! ### `splitN1` (`x.split(sep, n)`, one-byte separator) -/
+
+@[simp] theorem splitN1_zero (sep : UInt8) (x : Bytes) : splitN1 sep 0 x = [x] := rfl
+
+theorem splitN1_succ_of_not_mem (sep : UInt8) (n : Nat) (x : Bytes) (h : sep ∉ x) :
+    splitN1 sep (n + 1) x = [x] := by
+  rw [splitN1, splitOnce1_of_not_mem sep x h]
+
+theorem splitN1_succ_render (sep : UInt8) (n : Nat) (l r : Bytes) (h : sep ∉ l) :
+    splitN1 sep (n + 1) (l ++ sep :: r) = l :: splitN1 sep n r := by
+  rw [splitN1, splitOnce1_render sep l r h]
+
+/-- `(x ++ sep ++ y ++ sep ++ z).split(sep, 2) == [x, y, z]` when `x`, `y` are free of `sep` -/
+theorem splitN1_three (sep : UInt8) (x y z : Bytes) (hx : sep ∉ x) (hy : sep ∉ y) :
+    splitN1 sep 2 (x ++ sep :: (y ++ sep :: z)) = [x, y, z] := by
+  rw [splitN1_succ_render sep 1 x _ hx, splitN1_succ_render sep 0 y _ hy, splitN1_zero]
+
 /-! ### `lstrip` / `rstrip` / `strip` -/
+
+/-- a leading whitespace byte is stripped -/
+theorem strip_cons_ws {c : UInt8} (x : Bytes) (h : isWs c = true) : strip (c :: x) = strip x := by
+  simp [strip, lstrip, h]
 
 theorem lstrip_of_head {c : UInt8} {cs : Bytes} (h : isWs c = false) : lstrip (c :: cs) = c :: cs := by
   simp [lstrip, h]
